@@ -159,4 +159,146 @@ Proof.
     rewrite IH by (eapply skipn_len; eassumption). now rewrite firstn_skipn.
 Qed.
 
+(* ---------- the split of a prototype into 1..4 chunks ---------- *)
+Notation split := (split R rmul).
+Ltac divfacts t k := pose proof (Nat.div_mod t k ltac:(lia)); pose proof (Nat.mod_upper_bound t k ltac:(lia)).
+
+Lemma kronW_segs (segs : list (list wmat)) (cs : list wmat) p :
+  Forall2 (fun s c => weq c (kronW s)) segs cs -> concat segs = p -> weq (kronW cs) (kronW p).
+Proof.
+  intros HF Hc. eapply weq_trans; [apply kronW_weq_list with (l' := map kronW segs)|].
+  - clear -HF. induction HF; constructor; auto.
+  - subst p. apply (kronW_concat R rO rI radd rmul rsub ropp Rth).
+Qed.
+
+Lemma split_spec t3 st shp' : 3 <= t3 -> proto R st <> [] -> shp R st = shp' ++ [widths R (proto R st)] ->
+  exists cs, cs <> [] /\ length cs <= length (proto R st) /\ weq (kronW cs) (kronW (proto R st)) /\
+    split t3 st = Ok {| noc := noc R st ++ cs; shp := shp' ++ map fst cs; col := col R st ++ map (fun _ => false) (tl cs);
+                        proto := proto R st; lastid := lastid R st |}.
+Proof.
+  intros Ht3 Hp Hs. unfold Backends.split. set (p := proto R st) in *. set (t := length p).
+  assert (Tpos : 1 <= t) by (subst t; destruct p; [congruence | simpl; lia]).
+  assert (MK : forall c1 : wmat, set_last (fun _ => fst c1) (shp R st) = Ok (shp' ++ [fst c1]))
+    by (intros c1; rewrite Hs; exact (set_last_app (fun _ => fst c1) shp' (widths R p))).
+  destruct (Nat.leb_spec 19 t) as [C19|C19]; [|destruct (Nat.leb_spec t3 t) as [C3|C3]].
+  - divfacts t 4. divfacts (2 * t) 4. divfacts (3 * t) 4.
+    destruct (kron_of_spec (slice 0 (t / 4) p)) as (c1 & E1 & W1); [apply slice_nonempty; lia|].
+    destruct (kron_of_spec (slice (t / 4) (2 * t / 4) p)) as (c2 & E2 & W2); [apply slice_nonempty; lia|].
+    destruct (kron_of_spec (slice (2 * t / 4) (3 * t / 4) p)) as (c3 & E3 & W3); [apply slice_nonempty; lia|].
+    destruct (kron_of_spec (slice (3 * t / 4) t p)) as (c4 & E4 & W4); [apply slice_nonempty; lia|].
+    rewrite E1, E2, E3, E4. cbn [rbind]. rewrite MK. cbn [rbind].
+    exists [c1; c2; c3; c4]. split; [discriminate|]. split; [simpl; fold t; lia|]. split.
+    + apply kronW_segs with (segs := [slice 0 (t / 4) p; slice (t / 4) (2 * t / 4) p; slice (2 * t / 4) (3 * t / 4) p; slice (3 * t / 4) t p]).
+      * repeat (constructor; [assumption|]); constructor.
+      * cbn [concat]. rewrite app_nil_r. rewrite !slice_cat by lia. apply slice_full.
+    + cbn [map tl]. rewrite <- app_assoc. reflexivity.
+  - divfacts t 3. divfacts (2 * t) 3.
+    destruct (kron_of_spec (slice 0 (t / 3) p)) as (c1 & E1 & W1); [apply slice_nonempty; lia|].
+    destruct (kron_of_spec (slice (t / 3) (2 * t / 3) p)) as (c2 & E2 & W2); [apply slice_nonempty; lia|].
+    destruct (kron_of_spec (slice (2 * t / 3) t p)) as (c3 & E3 & W3); [apply slice_nonempty; lia|].
+    rewrite E1, E2, E3. cbn [rbind]. rewrite MK. cbn [rbind].
+    exists [c1; c2; c3]. split; [discriminate|]. split; [simpl; fold t; lia|]. split.
+    + apply kronW_segs with (segs := [slice 0 (t / 3) p; slice (t / 3) (2 * t / 3) p; slice (2 * t / 3) t p]).
+      * repeat (constructor; [assumption|]); constructor.
+      * cbn [concat]. rewrite app_nil_r. rewrite !slice_cat by lia. apply slice_full.
+    + cbn [map tl]. rewrite <- app_assoc. reflexivity.
+  - destruct (Nat.leb_spec 8 t) as [C8|C8].
+    + divfacts t 2.
+      destruct (kron_of_spec (slice 0 (t / 2) p)) as (c1 & E1 & W1); [apply slice_nonempty; lia|].
+      destruct (kron_of_spec (slice (t / 2) t p)) as (c2 & E2 & W2); [apply slice_nonempty; lia|].
+      rewrite E1, E2. cbn [rbind]. rewrite MK. cbn [rbind].
+      exists [c1; c2]. split; [discriminate|]. split; [simpl; fold t; lia|]. split.
+      * apply kronW_segs with (segs := [slice 0 (t / 2) p; slice (t / 2) t p]).
+        -- repeat (constructor; [assumption|]); constructor.
+        -- cbn [concat]. rewrite app_nil_r. rewrite !slice_cat by lia. apply slice_full.
+      * cbn [map tl]. rewrite <- app_assoc. reflexivity.
+    + destruct (kron_of_spec p Hp) as (c & E & W). rewrite E. cbn [rbind].
+      exists [c]. split; [discriminate|]. split; [simpl; fold t; lia|]. split.
+      * apply kronW_segs with (segs := [p]); [repeat (constructor; [assumption|]); constructor | cbn [concat]; apply app_nil_r].
+      * cbn [map tl]. rewrite app_nil_r. rewrite Hs. destruct W as [W1 _]. rewrite W1, fst_kronW. reflexivity.
+Qed.
+
+(* ---------- the scanner invariant ---------- *)
+Lemma kronW_app_weq X X' Y Y' : weq (kronW X) (kronW X') -> weq (kronW Y) (kronW Y') -> weq (kronW (X ++ Y)) (kronW (X' ++ Y')).
+Proof.
+  intros H1 H2. eapply weq_trans; [apply kronW_app|]. eapply weq_trans; [apply pkron_weq; eassumption|]. apply weq_sym, kronW_app.
+Qed.
+Lemma kronW_pair a b c : weq (pkron a b) c -> weq (kronW [a; b]) (kronW [c]).
+Proof.
+  intros H. change (kronW [a; b]) with (pkron a (pkron b (0, one R rI))). change (kronW [c]) with (pkron c (0, one R rI)).
+  eapply weq_trans; [apply weq_sym, (pkron_assoc R rO rI radd rmul rsub ropp Rth)|]. apply pkron_weq; [exact H | apply weq_refl].
+Qed.
+Lemma kronW_single a b : weq a b -> weq (kronW [a]) (kronW [b]).
+Proof. intros H. apply kronW_weq_list. constructor; [exact H | constructor]. Qed.
+Lemma legs_of_mats' ms : weq (kronW (map leg_mat (legs_of ms))) (kronW ms).
+Proof. apply kronW_weq_list. induction ms as [|[w a] ms IH]; [constructor|]. constructor; [apply weq_refl | exact IH]. Qed.
+Lemma widths_app (a b : list wmat) : widths R (a ++ b) = widths R a + widths R b.
+Proof. unfold widths. induction a as [|x a IH]; [reflexivity|]. cbn [app fold_right]. rewrite IH. lia. Qed.
+
+Notation step := (step R rI rmul is_id).
+Definition Inv (pre : list entry) (st : sstate R) : Prop :=
+  exists col' shp' w legs',
+    col R st = col' ++ [lastid R st] /\ shp R st = shp' ++ [w] /\ zip_legs col' shp' (noc R st) = Ok legs' /\
+    (length col' + (if lastid R st then 1 else length (proto R st)) <= length pre) /\
+    (if lastid R st then weq (kronW (map leg_mat legs' ++ [(w, idm)])) (kronW (map ofE pre))
+     else proto R st <> [] /\ widths R (proto R st) = w /\
+          weq (kronW (map leg_mat legs' ++ proto R st)) (kronW (map ofE pre))).
+
+Lemma step_inv pre m st : Inv pre st -> exists st', step m st = Ok st' /\ Inv (pre ++ [m]) st'.
+Proof.
+  intros (col' & shp' & w & legs' & Hc & Hs & Hz & Hlen & Hw). unfold Backends.step.
+  destruct (lastid R st) eqn:EL; destruct (is_id m) eqn:EI.
+  - (* identity after identities *)
+    rewrite Hs, set_last_app. cbn [rbind]. eexists. split; [reflexivity|].
+    exists col', shp', (S w), legs'. cbn [col shp noc proto lastid]. split; [|split; [|split; [|split]]]; auto.
+    + rewrite app_length. cbn [length]. lia.
+    + destruct (is_id_sound m EI) as (A & -> & HA). rewrite map_app. cbn [map].
+      eapply weq_trans; [|apply kronW_app_weq; [exact Hw | apply weq_refl]]. rewrite <- app_assoc. cbn [app].
+      apply kronW_app_weq; [apply weq_refl|]. apply weq_sym, kronW_pair.
+      eapply weq_trans; [apply pkron_weq; [apply weq_refl | apply ofE_ident; exact HA]|].
+      eapply weq_trans; [apply idm_kron|]. split; [cbn; lia | intros r c _ _; reflexivity].
+  - (* a matrix after identities: open a new prototype *)
+    eexists. split; [reflexivity|].
+    exists (col' ++ [true]), (shp' ++ [w]), (widths R [ofE m]), (legs' ++ [(w, None)]). cbn [col shp noc proto lastid].
+    split; [|split; [|split; [|split]]]; [| | | |split; [|split]].
+    + now rewrite Hc.
+    + rewrite Hs. unfold widths. cbn [fold_right]. now rewrite Nat.add_0_r.
+    + rewrite <- (app_nil_r (noc R st)). apply zip_legs_app; [exact Hz | reflexivity].
+    + rewrite !app_length. cbn [length]. lia.
+    + discriminate.
+    + reflexivity.
+    + rewrite !map_app. cbn [map]. apply kronW_app_weq; [exact Hw | apply weq_refl].
+  - (* identity after matrices: contract the prototype *)
+    destruct Hw as (Hp & Hwd & Hw).
+    destruct (split_spec 11 st shp' ltac:(lia) Hp) as (cs & Hcs & Lcs & Wcs & Es); [now rewrite Hwd|].
+    rewrite Es. cbn [rbind]. eexists. split; [reflexivity|].
+    exists (col' ++ map (fun _ => false) cs), (shp' ++ map fst cs), 1, (legs' ++ legs_of cs). cbn [col shp noc proto lastid].
+    split; [|split; [|split; [|split]]].
+    + rewrite Hc. destruct cs; [congruence|]. cbn [tl map]. now rewrite <- !app_assoc.
+    + reflexivity.
+    + apply zip_legs_app; [exact Hz | apply zip_false].
+    + rewrite !app_length, map_length. cbn [length]. lia.
+    + destruct (is_id_sound m EI) as (A & -> & HA). rewrite !map_app. cbn [map].
+      apply kronW_app_weq; [|apply kronW_single, weq_sym, ofE_ident; exact HA].
+      eapply weq_trans; [|exact Hw]. apply kronW_app_weq; [apply weq_refl|].
+      eapply weq_trans; [apply legs_of_mats'|]. exact Wcs.
+  - (* a matrix after matrices: extend the prototype *)
+    destruct Hw as (Hp & Hwd & Hw).
+    rewrite Hs, set_last_app. cbn [rbind]. eexists. split; [reflexivity|].
+    exists col', shp', (w + fst (ofE m)), legs'. cbn [col shp noc proto lastid]. split; [|split; [|split; [|split]]]; [| | | |split; [|split]]; auto.
+    + rewrite !app_length. cbn [length]. lia.
+    + destruct (proto R st); discriminate.
+    + rewrite widths_app, Hwd. unfold widths. cbn [fold_right]. lia.
+    + rewrite map_app. cbn [map]. rewrite app_assoc. apply kronW_app_weq; [exact Hw | apply weq_refl].
+Qed.
+
+Lemma fold_inv rest : forall pre st, Inv pre st ->
+  exists st', fold_left (fun acc m => s <- acc ;; step m s) rest (Ok st) = Ok st' /\ Inv (pre ++ rest) st'.
+Proof.
+  induction rest as [|m rest IH]; intros pre st H.
+  - exists st. rewrite app_nil_r. auto.
+  - destruct (step_inv pre m st H) as (st1 & E1 & H1). destruct (IH (pre ++ [m]) st1 H1) as (st' & E' & H').
+    exists st'. split; [cbn [fold_left rbind]; rewrite E1; exact E'|]. now rewrite <- app_assoc in H'.
+Qed.
+
 End Ones.
